@@ -12,13 +12,19 @@ an op that refers to a name that does not exist (any more) is skipped on both si
   ["ev", a]                         a()
   ["flip", v] / ["setdone", b]      toggle switch v / app.is_done
   ["mk", name, kind, ...]           kb | cond child raw | merged [children] | dyn target|None | glob child
-  ["tmpl", name, hid, f, e, g]      key_binding(filter, eager, is_global)(handler hid)
-  ["op", rop]                       rop = ["add", r, hid, f, e, g, keys] | ["addb", r, tmpl, f, e, g, keys]
+  ["tmpl", name, hid, f, e, g(, m)] key_binding(filter, eager, is_global, record_in_macro)(handler hid)
+  ["op", rop]                       rop = ["add", r, hid, f, e, g, keys(, m)] | ["addb", r, tmpl, f, e, g, keys]
                                           | ["rmh", r, hid] | ["rmk", r, keys] | ["target", d, t|None]
+                                    (m = record_in_macro, default True)
+  ["addr", r, hid, [raw, ...]]      kb.add(*raw)(handler): raw = ["E", value] (Keys member) | ["S", string]
+  ["parse", raw]                    key_bindings._parse_key(raw)
+  ["argv", "chars"]                 KeyPressEvent.append_to_arg_count(c) for c in chars, then .arg
+  ["mstate"]                        emacs current_recording / macro, vi recording_register / current_recording
+  ["refeed", n]                     a handler that feeds its own key again: n iterations of process_keys (watchdog)
   ["for"|"start", r, keys]          get_bindings_for_keys / get_bindings_starting_with_keys
   ["bindings", r] / ["version", r]
-  ["handler", hid, [eff, ...]]      eff = {flips, ops, feeds:[[first,[kp..]]], exit, outcome} for the
-                                    1st, 2nd, ... invocation of handler hid
+  ["handler", hid, [eff, ...]]      eff = {flips, ops, feeds:[[first,[kp..]]], macros:["S"|"E"|"C"|"VS"|"VE"], exit,
+                                    argkey: char|None, outcome} for the 1st, 2nd, ... invocation of handler hid
   ["proc", r]                       KeyProcessor(r)
   ["feed", first, [kp, ...]]        kp = "F" (_Flush) | [key, tag]
   ["process"] / ["reset"] / ["emptyq"]
@@ -51,7 +57,10 @@ from prompt_toolkit.key_binding.key_bindings import (
     merge_key_bindings,
 )
 from prompt_toolkit.key_binding import key_processor as kpmod
-from prompt_toolkit.key_binding.key_processor import KeyPress, KeyProcessor
+from prompt_toolkit.key_binding.key_processor import KeyPress, KeyPressEvent, KeyProcessor
+from prompt_toolkit.key_binding.emacs_state import EmacsState
+from prompt_toolkit.key_binding.vi_state import ViState
+from prompt_toolkit.key_binding.bindings.named_commands import get_by_name
 from prompt_toolkit.keys import Keys
 from prompt_toolkit.layout import Layout, Window
 from prompt_toolkit.output import DummyOutput
@@ -59,29 +68,44 @@ from prompt_toolkit.output import DummyOutput
 ID = "C04"
 DRIVER = "drv_c04"
 PROPS = ["Ptk.Props.C04", "Ptk.Props.C04Rule", "Ptk.Props.C04F", "Ptk.Props.C04KB", "Ptk.Props.C04W",
-         "Ptk.Props.C04W2", "Ptk.Props.C04World"]
+         "Ptk.Props.C04W2", "Ptk.Props.C04World", "Ptk.Props.C04Tree", "Ptk.Props.C04Run", "Ptk.Props.C04Keys",
+         "Ptk.Props.C04Arg", "Ptk.Props.C04Term", "Ptk.Props.C04TermW"]
 SERIAL = False
+NO_ESCALATION = bool(os.environ.get("C04_NO_ESCALATION"))   # development knob only (timing runs)
 ANCHORS = ["src/prompt_toolkit/key_binding/key_processor.py", "src/prompt_toolkit/key_binding/key_bindings.py",
-           "src/prompt_toolkit/filters/base.py", "src/prompt_toolkit/filters/utils.py", "src/prompt_toolkit/cache.py"]
+           "src/prompt_toolkit/filters/base.py", "src/prompt_toolkit/filters/utils.py", "src/prompt_toolkit/cache.py",
+           "src/prompt_toolkit/keys.py", "src/prompt_toolkit/key_binding/emacs_state.py"]
 TECHNIQUE = "Lean 4 proof about an executable model + differential correspondence + property oracle"
-LEVEL_TEXT = ("Lean 4 theorems over an executable model of KeyProcessor._process / process_keys (generic in the "
-              "key-binding object, the filters and the handlers), of KeyBindings with its version-invalidated "
-              "lookup caches, of the four wrappers and of the filter algebra with its memo dictionaries: "
-              "conservation of keys for every run (delivered / dropped / pushed back as typeahead / pending, in input "
-              "order), reset after a raising handler, the dispatch rule stated declaratively (wait / eager / "
-              "most-specific-last-registered / longest prefix / drop) and proved for every world with sound lookups "
-              "and for the registry model itself, queue order, and/or/invert normalisation preserves meaning in "
-              "every reachable heap, cached lookups equal the uncached ones after any add/remove/lookup "
-              "interleaving, and lookups / .bindings / _version through any nesting of conditional / merged / "
-              "dynamic / global-only wrappers equal the documented lookup over the registries' current bindings in "
-              "every reachable object table (version-bump and retarget lemmas); the model is tied to /repo on every "
-              "run by a differential correspondence (exhaustive small scopes + seeded random scenarios through real "
-              "KeyBindings / wrappers / KeyProcessor inside an Application) and an independent oracle")
+LEVEL_TEXT = ("Lean 4 theorems over an executable model of KeyProcessor._process / process_keys / _call_handler (generic in "
+              "the key-binding object, the filters and the handlers), of KeyBindings with its version-invalidated "
+              "lookup caches, of the four wrappers, of the filter algebra with its memo dictionaries, of _parse_key + "
+              "KEY_ALIASES and of the Readline argument: conservation of keys for every run (delivered / dropped / "
+              "pushed back as typeahead / pending, in input order), reset after a raising handler, the dispatch rule "
+              "stated declaratively (wait / eager / most-specific-last-registered / longest prefix / drop) and proved "
+              "for every world whose lookups are sound up to the meaning of the filters -- which is proved for the "
+              "plain registry AND for every reachable table of conditional / merged / dynamic / global-only wrappers, "
+              "so the rule holds for a processor sitting on ANY wrapper tree, at every pass of a whole process_keys run "
+              "with handlers that flip conditions, add/remove bindings, retarget, feed keys, exit or raise "
+              "(run_obeys_rule); queue order; and/or/invert normalisation preserves meaning in every reachable heap; "
+              "cached lookups equal the uncached ones after any add/remove/lookup interleaving; a failing add/remove "
+              "changes nothing; _parse_key: aliases and canonical names denote the same key, parsed keys are fixed "
+              "points, exactly when it raises (for every alias/Keys table satisfying side conditions re-decided on the "
+              "tables regenerated from /repo); the numeric argument: accumulation, '-' handling, delivered to exactly the "
+              "next command and cleared, value < 1000000 (cap regenerated); is_repeat = same Binding object as the "
+              "previous completed command; macro recording: the recording after a run is the recording before plus "
+              "exactly the key sequences delivered to record_in_macro bindings while recording was on before and after, "
+              "replay puts the macro in front of the queue in order; termination of process_keys under a feed budget with "
+              "the explicit fuel bound len(queue)+budget (instantiated for the scripted world: budget = keys the unused "
+              "script entries can feed), and a proved non-termination witness (a handler that re-feeds "
+              "its key) replayed on the real code under a watchdog; the model is tied to /repo on every run by generated "
+              "tables, a differential correspondence (exhaustive small scopes + seeded random scenarios through real "
+              "KeyBindings / wrappers / KeyProcessor inside an Application with real EmacsState / ViState) and an "
+              "independent oracle")
 LEVEL_NOTE = ("trusted: Lean kernel, axioms propext/Classical.choice/Quot.sound only; the hand-written model "
-              "(validated by the correspondence, not proved equal to the Python); the wrapper theorem speaks about "
-              "binding *views* (keys, handler, filter/eager/is_global value under every assignment) and is not "
-              "formally composed with the dispatch theorem, which is composed only with the plain registry; "
-              "CPython list/dict/generator semantics")
+              "(validated by the correspondence, not proved equal to the Python); gen_c04.py prints the Keys values, "
+              "KEY_ALIASES, the two cache sizes and the probed cap of KeyPressEvent.arg faithfully; Binding object "
+              "identities are modelled by an allocation counter (is_repeat), their uniqueness is correspondence-checked, "
+              "not proved; CPython list/dict/generator semantics")
 RULE = ("E3: every filter expression built by <=2 (quick) / <=3 (thorough) applications of & | ~ over {c0,c1,True,False}, "
         "each result evaluated under all assignments; E2: 14 wrapper nestings (conditional/merged/dynamic/global-only, "
         "shared and duplicated children, empty merge) x every sequence of 3 (quick) / 4 (thorough) operations from "
@@ -91,41 +115,121 @@ RULE = ("E3: every filter expression built by <=2 (quick) / <=3 (thorough) appli
         "timeouts after all keys / after every key / after the first key, handlers optionally flipping the condition; "
         "E4: binding pairs x which handler exits the application / raises / raises EditReadOnlyBuffer x key strings "
         "over {a,b,c,CPR} (keys left in the buffer become typeahead, CPR still processed, reset after raise); "
-        "R1/R2: seeded random scenarios (nested wrappers, handlers that flip conditions, add/remove bindings, retarget, "
-        "feed keys, exit, raise, raise EditReadOnlyBuffer; CPR keys, is_done, reset, empty_queue). A case is "
-        "non-trivial when it contains at least one lookup, filter operator or process_keys call")
+        "E5: a KeyProcessor on top of each of the 14 wrapper nestings x every sequence of 2 (quick) / 3 (thorough) "
+        "registry operations, every key string over {a,b} up to len 2 after each operation, one handler rebinding while "
+        "the processor runs; E6: numeric argument / is_repeat / macros: bindings a (command), b (types a digit), "
+        "c (types '-'), d (cycles through start / end / call macro, vi start / stop, add a binding, bell, raise) on a "
+        "registry, seen directly / through a conditional wrapper / through a merge, x 3 record_in_macro settings x 11 "
+        "rotations of d's script x keys at once or one by one, every key string over {a,b,c,d} up to len 3 (quick) / 4 "
+        "(thorough) in sequence; E7: _parse_key on every Keys member (as member and as string), every alias and alias "
+        "target, all strings at edit distance 1 of the alias names, add()/lookup/remove under alias and canonical name, "
+        "KeyPressEvent.arg for every string over {-,0,5} up to len 3 (quick) / 4 (thorough) and around the cap, the "
+        "re-feeding handler for a range of iteration counts; R1/R2: seeded random scenarios (nested wrappers, handlers that "
+        "flip conditions, add/remove bindings, retarget, feed keys, start/end/call macros, type argument characters, exit, "
+        "raise, raise EditReadOnlyBuffer; CPR keys, is_done, reset, empty_queue). A case is non-trivial when it contains "
+        "at least one lookup, filter operator, parse, argument or process_keys call")
 EXHAUSTIVE = True
 EXHAUSTIVE_SCOPE = {
-    "quick": "E3 depth 2 over {c0,c1,True,False}; E2 14 structures x 10^3 op sequences; E1 28x28 binding pairs x 14 key strings x 2 timeout modes; E4 7x7 pairs x 6 handler behaviours x 84 key strings (len<=3 over 4 keys)",
-    "thorough": "E3 depth 3 over {c0,c1,True}; E2 14 structures x 10^4 op sequences; E1 108x108 binding pairs x 30 key strings (all keys at once; a timeout after every key for len<=3; after the first key for a quarter of the pairs) + 6000 sampled triples/quadruples; E4 18x18 pairs x 6 behaviours x 84 key strings (len<=3 over 4 keys)"}
+    "quick": "E3 depth 2 over {c0,c1,True,False}; E2 14 structures x 10^3 op sequences; E1 28x28 binding pairs x 14 key strings x 2 timeout modes; E4 7x7 pairs x 6 handler behaviours x 84 key strings (len<=3 over 4 keys); E5 14 structures x 9^2 (7^2 without dynamic) op sequences x 6 key strings; E6 3 roots x 3 record_in_macro x 11 rotations x 2 chunkings x 84 key strings (len<=3 over {a,b,c,d}); E7 all 151 Keys members x 2 forms + all aliases/targets + edit-distance-1 neighbours, arg strings len<=3 over {-,0,5}",
+    "thorough": "E3 depth 3 over {c0,c1,True}; E2 14 structures x 10^4 op sequences; E1 108x108 binding pairs x 30 key strings (all keys at once; a timeout after every key for len<=3; after the first key for a quarter of the pairs) + 6000 sampled triples/quadruples; E4 18x18 pairs x 6 behaviours x 84 key strings (len<=3 over 4 keys); E5 14 structures x 9^3 (7^3) op sequences x 8 key strings; E6 as quick with 340 key strings (len<=4); E7 as quick with arg strings len<=4 and 64 re-feed counts"}
 TRUSTED = ["harness/c04.py compares, after every operation, the printed structure of filters (incl. object identity of "
-           "memoised results), binding lists, versions, and for every process_keys call the sequence of queue pops, "
-           "before/after events, handler calls with key_sequence and previous_key_sequence, dropped keys, keys pushed "
-           "back to the queue, bell, raise, and the key buffer / input queue / previous sequence afterwards",
-           "Ptk/Model/C04F.lean, C04KB.lean, C04.lean are hand translations of filters/base.py, key_bindings.py, "
-           "cache.py (SimpleCache) and key_processor.py (correspondence-checked)",
-           "a transparent proxy around the _process generator records what each send() consumed; dropped and "
-           "pushed-back keys are derived from the key buffer / input queue by object identity"]
+           "memoised results), binding lists (incl. record_in_macro), versions, and for every process_keys call the sequence "
+           "of queue pops, before/after events, handler calls with key_sequence, previous_key_sequence, event._arg, "
+           "event.is_repeat and event.arg, dropped keys, keys pushed back to the queue, bell, raise, what was appended to the "
+           "emacs / vi macro recording, and the key buffer / input queue / previous sequence / key_processor.arg afterwards",
+           "Ptk/Model/C04F.lean, C04KB.lean, C04Keys.lean, C04.lean are hand translations of filters/base.py, "
+           "key_bindings.py, cache.py (SimpleCache) and key_processor.py (correspondence-checked); Ptk/Gen/C04.lean is "
+           "regenerated from /repo on every run (cache sizes, Keys values, KEY_ALIASES, arg cap)",
+           "a transparent proxy around the _process generator records what each send() consumed; _call_handler and "
+           "_process_cpr_response are wrapped to observe the Binding object and the macro recordings; dropped and "
+           "pushed-back keys are derived from the key buffer / input queue by object identity",
+           "the scripted handlers call the real named commands start-kbd-macro / end-kbd-macro / call-last-kbd-macro and "
+           "KeyPressEvent.append_to_arg_count; app.key_processor is pointed at the KeyProcessor under test"]
 ASSUMPTIONS = ["filters are pure (Condition functions read switches and have no effects)",
                "handlers do not re-enter process_keys, do not touch key_buffer directly and are scripted: flip "
-               "conditions, add/remove bindings, retarget dynamic wrappers, feed keys, exit, raise (the theorems hold "
-               "for arbitrary handler functions on the world and the queue)",
+               "conditions, add/remove bindings, retarget dynamic wrappers, feed keys, start/end/call macros, type "
+               "argument characters, exit, raise (the processor theorems hold for arbitrary handler functions on the "
+               "world and the queue; what a scripted handler does never depends on event.arg / is_repeat)",
                "a timeout is the _Flush key in the input queue (the asyncio timer of _start_timeout is not run)",
-               "wrapper theorem: is_global arguments are the constants True/False (a switchable is_global filter is "
+               "wrapper theorems: is_global arguments are the constants True/False (a switchable is_global filter is "
                "evaluated when GlobalOnlyKeyBindings resynchronises and is then stale until the next version change; "
-               "the model follows the code, the theorem and the oracle exclude it)",
+               "the model follows the code, the theorems and the oracle exclude it)",
+               "macro theorem recording_log: handlers other than _call_handler's own append do not modify the recording "
+               "during the run it speaks about (start/end are separate steps, characterised by replay_front)",
+               "termination: the feed budget is a hypothesis about the handlers (Budget); without it the loop need not "
+               "terminate (refeed_never_terminates)",
                "CPython list mutation-while-iterating, dict and generator semantics; live objects have distinct id()"]
-PARTIAL_SCOPE = ["the dispatch theorem is composed with the registry model (dispatch_world); through wrappers it is "
-                 "relative to `Sound` lookups, for which wrappers_always_reflect gives the view-level statement only",
-                 "_start_timeout's asyncio task, macro recording, save_before/undo, vi cursor fix-up, Readline arg, "
-                 "is_repeat and key aliases (_parse_key) are not modelled",
-                 "termination of process_keys when handlers keep feeding keys is not claimed (fuel parameter)"]
+PARTIAL_SCOPE = ["_start_timeout's asyncio task, save_before/undo, the vi cursor fix-up and leaving vi temporary "
+                 "navigation mode are not modelled",
+                 "vi macro *replay* (@reg re-parses the recorded data through the VT100 parser) is not modelled; vi "
+                 "recording is (concatenated data of the delivered keys)",
+                 "is_repeat is proved relative to the modelled Binding identities (repeat_iff); that distinct Binding "
+                 "objects get distinct identities in every reachable table is exercised by the correspondence only",
+                 "the dispatch theorem through wrappers speaks about bindings up to the current value of their filters "
+                 "(keys, handler, active, eager); it is proved for worlds whose handlers are scripted registry operations "
+                 "with live filter arguments and constant is_global (run_obeys_rule), for arbitrary handlers it needs the "
+                 "invariant Inv as a hypothesis (dispatch_tree)",
+                 "termination of the scripted World is proved for scripts that do not replay macros (world_terminates); "
+                 "with call-last-kbd-macro entries the budget would have to account for the macro length",
+                 "KeyBindings.remove(<unbound keys>) raises UnboundLocalError instead of the documented ValueError: "
+                 "modelled (ropErr) and shown harmless for the property (applyROp_fail: nothing changes), not repaired"]
+MODELLED = {
+    "src/prompt_toolkit/key_binding/key_processor.py": [
+        "KeyProcessor.reset", "KeyProcessor._get_matches", "KeyProcessor._is_prefix_of_longer_match",
+        "KeyProcessor._process", "KeyProcessor.feed", "KeyProcessor.feed_multiple", "KeyProcessor.process_keys",
+        "KeyProcessor._process_cpr_response", "KeyProcessor.empty_queue", "KeyProcessor._call_handler",
+        "KeyPressEvent.arg", "KeyPressEvent.append_to_arg_count"],
+    "src/prompt_toolkit/key_binding/key_bindings.py": [
+        "KeyBindings._clear_cache", "KeyBindings.add", "KeyBindings.remove", "KeyBindings.get_bindings_for_keys",
+        "KeyBindings.get_bindings_starting_with_keys", "_parse_key", "key_binding",
+        "_Proxy.bindings", "_Proxy._version", "_Proxy.get_bindings_for_keys", "_Proxy.get_bindings_starting_with_keys",
+        "ConditionalKeyBindings._update_cache", "_MergedKeyBindings._update_cache",
+        "DynamicKeyBindings._update_cache", "GlobalOnlyKeyBindings._update_cache"],
+    "src/prompt_toolkit/filters/base.py": [
+        "Filter.__and__", "Filter.__or__", "Filter.__invert__", "_AndList.create", "_OrList.create",
+        "_remove_duplicates", "_AndList.__call__", "_OrList.__call__", "_Invert.__call__", "Always.__and__", "Always.__or__", "Always.__invert__", "Never.__and__",
+        "Never.__or__", "Never.__invert__"],
+    "src/prompt_toolkit/filters/utils.py": ["to_filter"],
+    "src/prompt_toolkit/cache.py": ["SimpleCache.get"],
+    "src/prompt_toolkit/key_binding/emacs_state.py": ["EmacsState.start_macro", "EmacsState.end_macro"],
+    "src/prompt_toolkit/key_binding/bindings/named_commands.py": ["call_last_kbd_macro"],
+}
 
 # model key number -> real key
 KEYMAP = {0: Keys.Any, 1: Keys.CPRResponse, 2: "a", 3: "b", 4: Keys.ControlX, 5: "c",
           6: Keys.Escape, 7: Keys.ControlC, 8: "d", 9: Keys.SIGINT, 63: "?"}
 KEYNUM = {v: k for k, v in KEYMAP.items()}
 NVARS = 3
+ALL_KEYS = list(Keys)
+
+
+def knum(k) -> int:
+    """numbering of keys shared with Drivers/C04.lean (`keyNum`)"""
+    if k in KEYNUM:
+        return KEYNUM[k]
+    if isinstance(k, Keys):
+        return 1000 + ALL_KEYS.index(k)
+    if isinstance(k, str) and len(k) == 1:
+        return 2000 + ord(k)
+    return 99
+
+
+def unknum(n: int):
+    if n in KEYMAP:
+        return KEYMAP[n]
+    if 1000 <= n < 1000 + len(ALL_KEYS):
+        return ALL_KEYS[n - 1000]
+    if n >= 2000:
+        return chr(n - 2000)
+    raise KeyError(n)
+
+
+def enc_str(s: str) -> str:
+    return "s:" + ",".join(str(ord(c)) for c in s)
+
+
+def raw_tok(raw) -> str:
+    return raw[0] + enc_str(raw[1])
 
 
 # ------------------------------------------------------------------ compile (names -> indices)
@@ -151,13 +255,15 @@ def _rop(env, rop):
     """-> (token string, resolved rop) or None when a name is unknown"""
     k = rop[0]
     if k == "add":
-        _, r, hid, f, e, g, keys = rop
-        toks = [_raw_tok(env, x) for x in (f, e, g)]
+        _, r, hid, f, e, g, keys = rop[:7]
+        m = rop[7] if len(rop) > 7 else True
+        toks = [_raw_tok(env, x) for x in (f, e, g, m)]
         if r not in env["r"] or None in toks:
             return None
         ri = env["r"][r]
         return ("add %d %d %s %s" % (ri, hid, " ".join(toks), _keys_tok(keys)),
-                ["add", ri, hid, _res_raw(env, f), _res_raw(env, e), _res_raw(env, g), list(keys)])
+                ["add", ri, hid, _res_raw(env, f), _res_raw(env, e), _res_raw(env, g), list(keys),
+                 _res_raw(env, m)])
     if k == "addb":
         _, r, t, f, e, g, keys = rop
         toks = [_raw_tok(env, x) for x in (f, e, g)]
@@ -246,12 +352,27 @@ def compile_case(case):
                     continue
                 env["r"][name] = len(env["r"])
             elif k == "tmpl":
-                toks = [_raw_tok(env, x) for x in op[3:6]]
+                raws = list(op[3:6]) + [op[6] if len(op) > 6 else True]
+                toks = [_raw_tok(env, x) for x in raws]
                 if None in toks:
                     continue
                 out.append(("tmpl %d %s" % (op[2], " ".join(toks)),
-                            ["tmpl", op[2]] + [_res_raw(env, x) for x in op[3:6]]))
+                            ["tmpl", op[2]] + [_res_raw(env, x) for x in raws]))
                 env["t"][op[1]] = len(env["t"])
+            elif k == "addr":
+                if op[1] in env["r"]:
+                    raws = [list(x) for x in op[3]]
+                    out.append(("addr %d %d %s" % (env["r"][op[1]], op[2],
+                                                  " ".join([str(len(raws))] + [raw_tok(x) for x in raws])),
+                                ["addr", env["r"][op[1]], op[2], raws]))
+            elif k == "parse":
+                out.append(("parse " + raw_tok(op[1]), ["parse", list(op[1])]))
+            elif k == "argv":
+                out.append(("argv " + " ".join([str(len(op[1]))] + [str(ord(c)) for c in op[1]]), ["argv", op[1]]))
+            elif k == "mstate":
+                out.append(("mstate", ["mstate"]))
+            elif k == "refeed":
+                out.append(("refeed %d" % int(op[1]), ["refeed", int(op[1])]))
             elif k == "op":
                 r = _rop(env, op[1])
                 if r is not None:
@@ -272,12 +393,17 @@ def compile_case(case):
                     t.append(" ".join([str(len(rops))] + [x[0] for x in rops]))
                     t.append(" ".join([str(len(feeds))] + ["%d %s" % (int(bool(f[0])), " ".join(
                         [str(len(f[1]))] + [_kp_tok(x) for x in f[1]])) for f in feeds]))
+                    macros = [m for m in e.get("macros", []) if m in ("S", "E", "C", "VS", "VE")]
+                    t.append(" ".join([str(len(macros))] + macros))
                     t.append(str(int(bool(e.get("exit", False)))))
+                    ak = e.get("argkey")
+                    t.append("N" if not ak else str(ord(ak[0])))
                     t.append(e.get("outcome", "ok"))
                     effs_tok.append(" ".join(t))
                     effs_res.append({"flips": list(e.get("flips", [])), "ops": [x[1] for x in rops],
-                                     "feeds": [[bool(f[0]), list(f[1])] for f in feeds],
-                                     "exit": bool(e.get("exit", False)), "outcome": e.get("outcome", "ok")})
+                                     "feeds": [[bool(f[0]), list(f[1])] for f in feeds], "macros": macros,
+                                     "exit": bool(e.get("exit", False)), "argkey": ak[0] if ak else None,
+                                     "outcome": e.get("outcome", "ok")})
                 out.append(("handler %d " % op[1] + " ".join([str(len(effs_tok))] + effs_tok),
                             ["handler", op[1], effs_res]))
             elif k == "proc":
@@ -331,12 +457,12 @@ def repr_f(f) -> str:
 
 
 def repr_keys(keys) -> str:
-    return ".".join(str(KEYNUM.get(k, 99)) for k in keys)
+    return ".".join(str(knum(k)) for k in keys)
 
 
 def repr_binding(b) -> str:
-    return "h%d/%s/%s/%s/%s" % (getattr(b.handler, "hid", 99), repr_keys(b.keys), repr_f(b.filter),
-                                repr_f(b.eager), repr_f(b.is_global))
+    return "h%d/%s/%s/%s/%s/%s" % (getattr(b.handler, "hid", 99), repr_keys(b.keys), repr_f(b.filter),
+                                   repr_f(b.eager), repr_f(b.is_global), repr_f(b.record_in_macro))
 
 
 def repr_bindings(bs) -> str:
@@ -377,6 +503,8 @@ class Sim:
         self.observe = observe    # oracle hooks
         self.in_cpr = False
         app.future = None
+        app.emacs_state = EmacsState()
+        app.vi_state = ViState()
 
     # -- filters
     def mk_cond(self, v):
@@ -405,8 +533,14 @@ class Sim:
                 n = self.hcount.get(hid, 0)
                 self.hcount[hid] = n + 1
                 rec = {"kind": "call", "hid": hid, "seq": list(event.key_sequence),
-                       "prev": list(event.previous_key_sequence), "tail": []}
+                       "prev": list(event.previous_key_sequence), "tail": [], "post": [],
+                       "arg": event._arg, "rep": bool(event.is_repeat), "present": event.arg_present}
+                try:
+                    rec["argval"] = event.arg
+                except ValueError:
+                    rec["argval"] = "!"
                 self.log.append(rec)
+                self.cur_call = rec
                 if self.observe:
                     self.observe.on_handler_entry(self, rec)
                 sc = self.scripts.get(hid, [])
@@ -419,11 +553,31 @@ class Sim:
                             self.apply_rop(rop)
                         for first, kps in e["feeds"]:
                             event.key_processor.feed_multiple([self.mk_kp(x) for x in kps], first=first)
+                        for m in e.get("macros", []):
+                            if m == "S":
+                                get_by_name("start-kbd-macro").handler(event)
+                            elif m == "E":
+                                get_by_name("end-kbd-macro").handler(event)
+                            elif m == "C":
+                                get_by_name("call-last-kbd-macro").handler(event)
+                            elif m == "VS":     # vi.py load_vi_bindings._start_macro
+                                self.app.vi_state.recording_register = "a"
+                                self.app.vi_state.current_recording = ""
+                            elif m == "VE":     # vi.py load_vi_bindings._stop_macro (without the register store)
+                                if self.app.vi_state.recording_register:
+                                    self.app.vi_state.recording_register = None
+                                    self.app.vi_state.current_recording = ""
                         if e["exit"]:
                             if self.app.future is None:
                                 self.app.future = Future()
                             if not self.app.future.done():
                                 self.app.future.set_result(None)
+                        if e.get("argkey"):
+                            try:
+                                event.append_to_arg_count(e["argkey"])
+                            except AssertionError:
+                                rec["tail"].append("R")
+                                raise RuntimeError("handler %d raises (assert in append_to_arg_count)" % hid)
                         if e["outcome"] == "ro":
                             rec["tail"].append("L")
                             raise EditReadOnlyBuffer()
@@ -431,6 +585,8 @@ class Sim:
                             rec["tail"].append("R")
                             raise RuntimeError("handler %d raises" % hid)
                 finally:
+                    es, vs = self.app.emacs_state, self.app.vi_state
+                    rec["exit_state"] = (es.current_recording, len(es.current_recording or []), vs.current_recording)
                     if self.observe:
                         self.observe.on_handler_exit(self, rec)
             h.hid = hid
@@ -440,9 +596,10 @@ class Sim:
     def mk_kp(self, x):
         if x == "F":
             return kpmod._Flush
-        return KeyPress(KEYMAP[x[0]], data=str(x[1]))
+        return KeyPress(unknum(x[0]), data=str(x[1]))
 
-    def apply_rop(self, rop) -> bool:
+    def apply_rop(self, rop):
+        """True, False (does not apply), or the name of the exception the real call raised"""
         k = rop[0]
         try:
             if k in ("add", "addb", "rmh", "rmk"):
@@ -450,20 +607,22 @@ class Sim:
                 if not isinstance(reg, KeyBindings):
                     return False
             if k == "add":
-                _, r, hid, f, e, g, keys = rop
-                reg.add(*[KEYMAP[x] for x in keys], filter=self.raw(f), eager=self.raw(e),
-                        is_global=self.raw(g))(self.handler(hid))
+                _, r, hid, f, e, g, keys, m = rop
+                reg.add(*[unknum(x) for x in keys], filter=self.raw(f), eager=self.raw(e),
+                        is_global=self.raw(g), record_in_macro=self.raw(m))(self.handler(hid))
                 return True
             if k == "addb":
                 _, r, t, f, e, g, keys = rop
-                reg.add(*[KEYMAP[x] for x in keys], filter=self.raw(f), eager=self.raw(e),
+                reg.add(*[unknum(x) for x in keys], filter=self.raw(f), eager=self.raw(e),
                         is_global=self.raw(g))(self.tmpl[t])
                 return True
             if k == "rmh":
                 reg.remove(self.handler(rop[2]))
                 return True
             if k == "rmk":
-                reg.remove(*[KEYMAP[x] for x in rop[2]])
+                if not rop[2]:
+                    return False        # remove() without arguments: IndexError, not part of the API
+                reg.remove(*[unknum(x) for x in rop[2]])
                 return True
             if k == "target":
                 _, d, t = rop
@@ -473,7 +632,9 @@ class Sim:
                 kind[1][0] = None if t is None else self.regs[t]
                 kind[2][0] = t
                 return True
-        except (ValueError, AssertionError, IndexError, UnboundLocalError):
+        except (ValueError, AssertionError, UnboundLocalError) as exc:
+            return type(exc).__name__
+        except IndexError:
             return False
         return False
 
@@ -512,6 +673,44 @@ class Sim:
                     self.on_cpr_exit(key_press)
             self.kp._process_cpr_response = cpr
             self.kp._cpr_wrapped = True
+
+        if self.kp is not None and not getattr(self.kp, "_ch_wrapped", False):
+            orig_ch = self.kp._call_handler
+
+            def call_handler(handler, key_sequence, orig_ch=orig_ch):
+                es, vs = self.app.emacs_state, self.app.vi_state
+                info = {"binding": handler, "seq": list(key_sequence), "was_e": es.is_recording,
+                        "was_v": bool(vs.recording_register), "prev_binding": self.kp._previous_handler}
+                self.cur_call = None
+                if self.observe:
+                    self.observe.on_call_handler_entry(self, info)
+                ok = False
+                try:
+                    orig_ch(handler, key_sequence=key_sequence)
+                    ok = True
+                finally:
+                    rec = self.cur_call
+                    info["rec"] = rec
+                    info["ok"] = ok
+                    if ok and rec is not None and "exit_state" in rec:
+                        lst, n0, v0 = rec["exit_state"]
+                        cur = es.current_recording
+                        pushed_e = list(cur[n0:]) if (cur is not None and cur is lst) else []
+                        v1 = vs.current_recording
+                        pushed_v = v1[len(v0):] if v1.startswith(v0) else None
+                        info["pushed_e"], info["pushed_v"] = pushed_e, pushed_v
+                        if pushed_e:
+                            rec["post"].append("ME" + self.repr_kps(pushed_e))
+                        if pushed_v:
+                            datas = "".join(k.data for k in key_sequence)
+                            rec["post"].append("MV" + (self.repr_kps(key_sequence) if pushed_v == datas
+                                                       else "?" + pushed_v))
+                        elif pushed_v is None:
+                            rec["post"].append("MV?reset")
+                    if self.observe:
+                        self.observe.on_call_handler_exit(self, info)
+            self.kp._call_handler = call_handler
+            self.kp._ch_wrapped = True
 
     def on_cpr_entry(self, kp):
         self.in_cpr = True
@@ -582,7 +781,7 @@ class Sim:
     def repr_kp(self, k) -> str:
         if k is kpmod._Flush:
             return "F"
-        return "%d:%s" % (KEYNUM.get(k.key, 99), k.data)
+        return "%d:%s" % (knum(k.key), k.data)
 
     def repr_kps(self, ks) -> str:
         return "[" + ",".join(self.repr_kp(k) for k in ks) + "]"
@@ -591,8 +790,10 @@ class Sim:
         out = []
         for r in self.log:
             if r["kind"] == "call":
+                out.append("E%s/%d/%s" % ("~" if r["arg"] is None else r["arg"], int(r["rep"]), r["argval"]))
                 out.append("C%d%s%s" % (r["hid"], self.repr_kps(r["seq"]), self.repr_kps(r["prev"])))
                 out += r["tail"]
+                out += r["post"]
             elif r["kind"] == "drop":
                 out.append("D" + self.repr_kp(r["key"]))
             elif r["kind"] == "P":
@@ -661,12 +862,64 @@ class Sim:
             return "ok"
         if k == "tmpl":
             self.tmpl.append(key_binding(filter=self.raw(op[2]), eager=self.raw(op[3]),
-                                         is_global=self.raw(op[4]))(self.handler(op[1])))
+                                         is_global=self.raw(op[4]),
+                                         record_in_macro=self.raw(op[5]))(self.handler(op[1])))
             return "ok"
         if k == "op":
-            return "ok" if self.apply_rop(op[1]) else "fail"
+            r = self.apply_rop(op[1])
+            return "ok" if r is True else "fail" if r is False else "err:" + r
+        if k == "addr":
+            reg = self.regs[op[1]]
+            if not isinstance(reg, KeyBindings):
+                return "fail"
+            try:
+                reg.add(*[Keys(v) if t == "E" else v for t, v in op[3]])(self.handler(op[2]))
+            except (ValueError, AssertionError) as exc:
+                return "err:" + type(exc).__name__
+            return "ok"
+        if k == "parse":
+            t, v = op[1]
+            try:
+                r = kbmod._parse_key(Keys(v) if t == "E" else v)
+            except ValueError:
+                if self.observe:
+                    self.observe.on_parse(self, t, v, None)
+                return "err:ValueError"
+            if self.observe:
+                self.observe.on_parse(self, t, v, r)
+            if isinstance(r, Keys):
+                return "K" + enc_str(r.value) + " %d" % knum(r)
+            if isinstance(r, str) and len(r) == 1:
+                return "C%d %d" % (ord(r), knum(r))
+            return "X" + enc_str(str(r))       # not a key at all
+        if k == "argv":
+            class _KP:      # stands for the KeyProcessor: append_to_arg_count only assigns `.arg`
+                arg = None
+            holder = _KP()
+            for c in op[1]:
+                ev = KeyPressEvent.__new__(KeyPressEvent)
+                ev._arg = holder.arg
+                ev._key_processor_ref = lambda holder=holder: holder
+                try:
+                    ev.append_to_arg_count(c)
+                except AssertionError:
+                    return "err:AssertionError"
+            ev = KeyPressEvent.__new__(KeyPressEvent)
+            ev._arg = holder.arg
+            try:
+                val = str(ev.arg)
+            except ValueError:
+                val = "!"
+            return "%s %s" % ("~" if holder.arg is None else holder.arg, val)
+        if k == "refeed":
+            return refeed_real(self.app, op[1])
+        if k == "mstate":
+            es, vs = self.app.emacs_state, self.app.vi_state
+            return "%s %s %d %s" % ("~" if es.current_recording is None else self.repr_kps(es.current_recording),
+                                    "~" if es.macro is None else self.repr_kps(es.macro),
+                                    int(bool(vs.recording_register)), "[" + vs.current_recording + "]")
         if k in ("for", "start", "bindings"):
-            keys = tuple(KEYMAP[x] for x in op[2]) if k != "bindings" else None
+            keys = tuple(unknum(x) for x in op[2]) if k != "bindings" else None
             if k == "for":
                 res = self.regs[op[1]].get_bindings_for_keys(keys)
             elif k == "start":
@@ -684,10 +937,11 @@ class Sim:
             return "ok"
         if k == "proc":
             self.kp = KeyProcessor(self.regs[op[1]])
+            self.app.key_processor = self.kp      # call-last-kbd-macro feeds event.app.key_processor
             self.kp.before_key_press += lambda _: self.log.append({"kind": "B"})
             self.kp.after_key_press += lambda _: self.log.append({"kind": "A"})
             if self.observe:
-                self.observe.exp_prev = []
+                self.observe.forget()
             return "ok"
         if k == "feed":
             self.kp.feed_multiple([self.mk_kp(x) for x in op[2]], first=op[1])
@@ -707,17 +961,64 @@ class Sim:
             if self.observe:
                 self.observe.on_process_end(self)
             ev = self.repr_log()
-            return "%s # %s # %s # %s" % (" ".join([str(len(ev))] + ev), self.repr_kps(self.kp.key_buffer),
-                                          self.repr_kps(self.kp.input_queue),
-                                          self.repr_kps(self.kp._previous_key_sequence))
+            return "%s # %s # %s # %s # %s" % (" ".join([str(len(ev))] + ev), self.repr_kps(self.kp.key_buffer),
+                                               self.repr_kps(self.kp.input_queue),
+                                               self.repr_kps(self.kp._previous_key_sequence),
+                                               "~" if self.kp.arg is None else self.kp.arg)
         if k == "reset":
             self.kp.reset()
             if self.observe:
-                self.observe.exp_prev = []
+                self.observe.forget()
             return "ok"
         if k == "emptyq":
             return self.repr_kps(self.kp.empty_queue())
         return "bad-op"
+
+
+class _Stop(Exception):
+    pass
+
+
+def refeed_real(app, n: int) -> str:
+    """The non-termination witness of Props/C04Term.lean on the real code: the handler of `a` feeds `a`
+    again.  process_keys() never returns by itself; the handler stops the experiment after its
+    n-th invocation (exception), a SIGALRM watchdog guards against a hang of any other kind."""
+    import signal
+
+    kb = KeyBindings()
+    st = {"calls": 0, "queued": -1}
+
+    @kb.add("a")
+    def _(event):
+        st["calls"] += 1
+        event.key_processor.feed(KeyPress("a", data="0"))
+        if st["calls"] >= n + 1:          # the first call brings the processor into the state `loopPS`
+            st["queued"] = len(event.key_processor.input_queue)
+            raise _Stop()
+
+    kp = KeyProcessor(kb)
+    kp.feed(KeyPress("a", data="0"))
+
+    def on_alarm(signum, frame):
+        raise TimeoutError("watchdog")
+
+    old = signal.signal(signal.SIGALRM, on_alarm)
+    signal.setitimer(signal.ITIMER_REAL, 20.0)
+    returned = False
+    try:
+        kp.process_keys()
+        returned = True
+    except _Stop:
+        pass
+    except TimeoutError:
+        return "watchdog"
+    finally:
+        signal.setitimer(signal.ITIMER_REAL, 0)
+        signal.signal(signal.SIGALRM, old)
+    # model: after n iterations from loopPS: n calls, `a` still queued, nothing raised
+    if returned:
+        return "returned calls=%d" % st["calls"]
+    return "calls=%d queued=%d raised=0" % (st["calls"] - 1, st["queued"])
 
 
 def run_real(case, observe=None):
@@ -836,6 +1137,15 @@ class Observer:
     def __init__(self):
         self.v = []
         self.exp_prev = None
+        self.exp_arg = None          # what the next handler invocation must find in event._arg
+        self.last_binding = None     # the Binding object of the previous completed _call_handler
+        self.ch = None
+
+    def forget(self):
+        """KeyProcessor.reset(): previous key sequence, previous handler and numeric argument are gone"""
+        self.exp_prev = []
+        self.exp_arg = None
+        self.last_binding = None
 
     def bad(self, site, cond, msg):
         self.v.append({"signature": "%s | %s" % (site, cond), "msg": msg})
@@ -863,6 +1173,40 @@ class Observer:
         if kind == "and" and (a & b) is not r or kind == "or" and (a | b) is not r or kind == "inv" and (~a) is not r:
             if not isinstance(r, (fbase.Always, fbase.Never)):
                 self.bad("Filter.__%s__" % kind, "not memoised", "second evaluation returns another object")
+
+    # ---- _parse_key: a key is a Keys member or one character; aliases and canonical names are the same key
+    def on_parse(self, sim, t, v, r):
+        from prompt_toolkit.keys import KEY_ALIASES
+        values = {k.value for k in ALL_KEYS}
+        site = "_parse_key"
+        if t == "E":
+            if r is not Keys(v):
+                self.bad(site, "Keys member changed", "%r -> %r" % (v, r))
+            return
+        canon = KEY_ALIASES.get(v, v)
+        if canon == "space":
+            canon = " "
+        valid = canon in values or len(canon) == 1
+        if r is None:
+            if valid:
+                self.bad(site, "valid key rejected", "%r" % (v,))
+            return
+        if not valid:
+            self.bad(site, "invalid key accepted", "%r -> %r" % (v, r))
+            return
+        if not (isinstance(r, Keys) or (isinstance(r, str) and len(r) == 1)):
+            self.bad(site, "result is not a key", "%r -> %r" % (v, r))
+            return
+        exp = Keys(canon) if canon in values else canon
+        if r != exp or isinstance(r, Keys) != isinstance(exp, Keys):
+            self.bad(site, "wrong key", "%r -> %r, expected %r" % (v, r, exp))
+            return
+        try:
+            again = kbmod._parse_key(r)
+        except ValueError:
+            again = None
+        if again != r:
+            self.bad(site, "not idempotent", "%r -> %r -> %r" % (v, r, again))
 
     # ---- lookups
     def on_lookup(self, sim, kind, i, keys, res):
@@ -965,16 +1309,82 @@ class Observer:
             self.bad("KeyProcessor._process_cpr_response", "wrong handler",
                      "rule: %s, called %s" % (exp and "h%d" % exp.hid, got and "h%d" % got["hid"]))
 
+    def on_call_handler_entry(self, sim, info):
+        self.ch = info
+
     def on_handler_entry(self, sim, rec):
         if self.exp_prev is not None:
             if len(rec["prev"]) != len(self.exp_prev) or any(a is not b for a, b in zip(rec["prev"], self.exp_prev)):
                 self.bad("KeyProcessor._call_handler", "previous_key_sequence",
                          "got %s expected %s" % (sim.repr_kps(rec["prev"]), sim.repr_kps(self.exp_prev)))
+        # the Readline argument: what was typed (append_to_arg_count) since the last command goes to this
+        # invocation and only to it; is_repeat: the previous invocation was of the very same Binding object
+        if sim.in_cpr:
+            if rec["arg"] is not None or rec["rep"]:
+                self.bad("KeyProcessor._process_cpr_response", "event carries an argument / is_repeat",
+                         "arg=%r is_repeat=%r" % (rec["arg"], rec["rep"]))
+        else:
+            if rec["arg"] != self.exp_arg:
+                self.bad("KeyProcessor._call_handler", "numeric argument not delivered",
+                         "handler h%d got arg %r, typed since the last command: %r" % (rec["hid"], rec["arg"], self.exp_arg))
+            if sim.kp.arg is not None:
+                self.bad("KeyProcessor._call_handler", "numeric argument not cleared",
+                         "key_processor.arg is %r while handler h%d runs" % (sim.kp.arg, rec["hid"]))
+            if self.ch is not None:
+                exp_rep = self.ch["binding"] is self.last_binding
+                if rec["rep"] != exp_rep:
+                    self.bad("KeyProcessor._call_handler", "is_repeat",
+                             "handler h%d: is_repeat=%r, same binding as the previous command: %r" % (
+                                 rec["hid"], rec["rep"], exp_rep))
+        a = rec["arg"]
+        if a is None or a == "":
+            exp_val = 1
+        elif a == "-":
+            exp_val = -1
+        else:
+            try:
+                exp_val = int(a)
+                if exp_val >= 1000000:
+                    exp_val = 1
+            except ValueError:
+                exp_val = "!"
+        if rec["argval"] != exp_val:
+            self.bad("KeyPressEvent.arg", "value",
+                     "_arg=%r gives event.arg=%r, documented: %r" % (a, rec["argval"], exp_val))
 
     def on_handler_exit(self, sim, rec):
         rec["snap_after"] = self.snapshot(sim)
         if "R" not in rec["tail"] and not sim.in_cpr:
             self.exp_prev = list(rec["seq"])
+        if sim.in_cpr:
+            self.exp_arg = sim.kp.arg       # not cleared on this path; a CPR handler may also append
+
+    def on_call_handler_exit(self, sim, info):
+        self.ch = None
+        if not info["ok"]:
+            return                          # process_keys resets; on_process_end forgets
+        self.last_binding = info["binding"]
+        self.exp_arg = sim.kp.arg
+        es, vs = sim.app.emacs_state, sim.app.vi_state
+        seq = info["seq"]
+        rim = bool(info["binding"].record_in_macro())
+        exp_e = rim and info["was_e"] and es.is_recording
+        got_e = info.get("pushed_e", [])
+        if exp_e:
+            if len(got_e) != len(seq) or any(a is not b for a, b in zip(got_e, seq)):
+                self.bad("KeyProcessor._call_handler", "macro recording misses delivered keys",
+                         "delivered %s, appended to the emacs recording: %s" % (sim.repr_kps(seq), sim.repr_kps(got_e)))
+        elif got_e:
+            self.bad("KeyProcessor._call_handler", "macro recording has keys it must not have",
+                     "appended %s (record_in_macro=%r, recording before=%r after=%r)" % (
+                         sim.repr_kps(got_e), rim, info["was_e"], es.is_recording))
+        exp_v = rim and info["was_v"] and bool(vs.recording_register)
+        got_v = info.get("pushed_v", "")
+        datas = "".join(k.data for k in seq)
+        if (got_v or "") != (datas if exp_v else "") or got_v is None:
+            self.bad("KeyProcessor._call_handler", "vi macro recording",
+                     "delivered data %r, appended %r (record_in_macro=%r, recording before=%r after=%r)" % (
+                         datas, got_v, rim, info["was_v"], bool(vs.recording_register)))
 
     def on_send_exit(self, sim, kp, x, after, items):
         self.q_shadow = list(sim.kp.input_queue)
@@ -1073,8 +1483,9 @@ class Observer:
     def on_process_end(self, sim):
         kp = sim.kp
         if self.raised:
-            self.exp_prev = []
-            if kp.key_buffer or kp.input_queue or kp._previous_key_sequence or kp.arg is not None:
+            self.forget()
+            if (kp.key_buffer or kp.input_queue or kp._previous_key_sequence or kp.arg is not None
+                    or kp._previous_handler is not None):
                 self.bad("KeyProcessor.process_keys", "not reset after a raising handler",
                          "buffer %s queue %s" % (sim.repr_kps(kp.key_buffer), sim.repr_kps(kp.input_queue)))
         else:
@@ -1154,8 +1565,11 @@ def rand_rop(rng, kbs, regs, dyns, fnames, tmpls, nh):
     k = rng.random()
     if k < 0.5 or not kbs:
         r = rng.choice(kbs or regs)
-        return ["add", r, rng.randrange(nh), rand_raw(rng, fnames), rand_raw(rng, fnames, 0.8),
-                rand_raw(rng, fnames, 0.8), rand_pattern(rng)]
+        rop = ["add", r, rng.randrange(nh), rand_raw(rng, fnames), rand_raw(rng, fnames, 0.8),
+               rand_raw(rng, fnames, 0.8), rand_pattern(rng)]
+        if rng.random() < 0.25:
+            rop.append(rand_raw(rng, fnames, 0.6))      # record_in_macro
+        return rop
     if k < 0.6 and tmpls:
         return ["addb", rng.choice(kbs), rng.choice(tmpls), rand_raw(rng, fnames), rand_raw(rng, fnames, 0.8),
                 rand_raw(rng, fnames, 0.8), rand_pattern(rng)]
@@ -1164,6 +1578,14 @@ def rand_rop(rng, kbs, regs, dyns, fnames, tmpls, nh):
     if k < 0.9 or not dyns:
         return ["rmk", rng.choice(kbs), rand_pattern(rng)]
     return ["target", rng.choice(dyns), rng.choice(regs + [None])]
+
+
+def rand_extras(rng, e):
+    """macro operations and numeric-argument keys for a random handler effect"""
+    if rng.random() < 0.25:
+        e["macros"] = [rng.choice(["S", "S", "E", "C", "C", "VS", "VE"]) for _ in range(rng.choice([1, 1, 2]))]
+    if rng.random() < 0.2:
+        e["argkey"] = rng.choice("0123456789-5-")
 
 
 def rand_case(rng, size=1.0):
@@ -1226,6 +1648,7 @@ def rand_case(rng, size=1.0):
                                for _ in range(rng.choice([0, 0, 0, 1, 2]))],
                      "exit": rng.random() < 0.05,
                      "outcome": rng.choice(["ok"] * 8 + ["ro", "raise"])}
+                rand_extras(rng, e)
                 effs.append(e)
             ops.append(["handler", hid, effs])
     for _ in range(rng.randrange(1, 7)):
@@ -1483,6 +1906,7 @@ def dense_case(rng):
                                        for _ in range(rng.choice([0, 0, 0, 1]))],
                              "exit": rng.random() < 0.04,
                              "outcome": rng.choice(["ok"] * 10 + ["ro", "raise"])})
+                rand_extras(rng, effs[-1])
             ops.append(["handler", hid, effs])
     for _ in range(rng.randrange(3, 10)):
         pat = [rng.choice([2, 2, 3, 3, 0]) for _ in range(rng.choice([1, 1, 2, 2, 3]))]
@@ -1513,8 +1937,116 @@ def dense_case(rng):
         elif k < 0.96:
             ops.append(["setdone", rng.random() < 0.6])
         else:
-            ops.append(rng.choice([["reset"], ["emptyq"], ["version", regs[-1]], ["bindings", regs[-1]]]))
+            ops.append(rng.choice([["reset"], ["emptyq"], ["version", regs[-1]], ["bindings", regs[-1]], ["mstate"]]))
+    ops.append(["mstate"])
     return {"ops": ops, "fam": "R2"}
+
+
+# ---- E5: dispatch through every wrapper structure, bindings changing between the key strings
+E5_MENU = ["a1", "a2", "a3", "r1", "r2", "r3", "t1", "t2", "f"]
+
+
+def e5_cases(tier, rng):
+    n = 2 if tier == "quick" else 3
+    strings = list(key_strings(2)) + ([[2, 3, 2], [2, 2, 3]] if tier != "quick" else [])
+    for st in STRUCTS:
+        has_dyn = any(o[2] == "dyn" for o in st)
+        menu = [m for m in E5_MENU if has_dyn or not m.startswith("t")]
+        for seq in itertools.product(menu, repeat=n):
+            ops = [["cond", "c0", 0], ["cond", "c1", 1], ["flip", 1], ["mk", "k", "kb"], ["mk", "k2", "kb"]] + \
+                  [list(o) for o in st]
+            # handler 1 (bound by a2 to `a Any`) rebinds while the processor runs
+            ops.append(["handler", 1, [{"ops": [["add", "k2", 3, True, False, True, [3]]]}, {"ops": [["rmh", "k2", 3]]}] * 6])
+            ops += [["op", ["add", "k", 4, True, False, True, [3, 2]]], ["proc", "w"]]
+            ops += proc_script(strings, [0])
+            for m in seq:
+                ops += MENU[m]
+                ops += proc_script(strings, [0])
+            yield {"ops": ops, "fam": "E5"}
+
+
+# ---- E6: numeric argument, is_repeat, macro recording / replay
+E6_SCRIPT = [{"macros": ["S"]}, {"macros": ["E"]}, {"macros": ["C"]}, {"macros": ["VS"]}, {"macros": ["VE"]},
+             {"macros": ["C"]}, {"ops": [["add", "k", 0, True, False, False, [2]]]}, {"outcome": "ro"},
+             {"macros": ["S", "VS"]}, {"outcome": "raise"}, {"macros": ["E", "C"]}]
+
+
+def e6_cases(tier, rng):
+    maxlen = 3 if tier == "quick" else 4
+    strings = list(key_strings(maxlen, alphabet=(2, 3, 5, 8)))
+    for root in ("k", "w", "m"):
+        for rim_b in (True, False, "c1"):
+            for rot in range(len(E6_SCRIPT)):
+                for chunked in (False, True):
+                    ops = [["cond", "c0", 0], ["cond", "c1", 1], ["flip", 0], ["mk", "k", "kb"], ["mk", "k2", "kb"],
+                           ["mk", "w", "cond", "k", "c0"], ["mk", "m", "merged", ["k2", "w"]],
+                           ["op", ["add", "k", 0, True, False, False, [2]]],                 # a: plain command
+                           ["op", ["add", "k", 1, True, False, False, [3], rim_b]],          # b: digit argument
+                           ["op", ["add", "k", 2, True, False, False, [5], False]],          # c: minus
+                           ["op", ["add", "k", 3, True, False, False, [8]]],                 # d: macro / misc
+                           ["op", ["add", "k2", 0, "c1", False, False, [2, 2]]],             # a a (when c1)
+                           ["handler", 1, [{"argkey": "5", "flips": [1]}, {"argkey": "0"}, {"argkey": "7"}] * 400],
+                           ["handler", 2, [{"argkey": "-"}] * 1200],
+                           ["handler", 3, [dict(E6_SCRIPT[(rot + i) % len(E6_SCRIPT)]) for i in range(1200)]],
+                           ["proc", root]]
+                    tag = 0
+                    for n, ks in enumerate(strings):
+                        kps = []
+                        for k in ks:
+                            tag += 1
+                            kps.append([k, tag])
+                        if chunked:
+                            for kp in kps:
+                                ops += [["feed", False, [kp]], ["process"]]
+                        else:
+                            ops += [["feed", False, kps], ["process"]]
+                        ops += [["feed", False, ["F"]], ["process"]]
+                        if n % 16 == 15:
+                            ops.append(["mstate"])
+                    ops.append(["mstate"])
+                    yield {"ops": ops, "fam": "E6"}
+
+
+# ---- E7: _parse_key over the whole Keys enumeration, every alias, and strings around them
+def e7_cases(tier, rng):
+    from prompt_toolkit.keys import KEY_ALIASES
+    raws = [["E", k.value] for k in ALL_KEYS] + [["S", k.value] for k in ALL_KEYS]
+    raws += [["S", a] for a in KEY_ALIASES] + [["S", t] for t in KEY_ALIASES.values()]
+    raws += [["S", x] for x in ["space", " ", "", "a", "Z", "?", "ab", "c-", "C-a", "Enter", "<any>", "<any", "escape ",
+                                "s-c-left", "c-s-left", "\u4e16", "\u4e16\u754c", "-", "f1", "f25", "c-1", "c-10"]]
+    ops = [["parse", r] for r in raws]
+    # strings at edit distance one of every alias name and of a few values
+    near = set()
+    for w in list(KEY_ALIASES) + ["c-a", "escape", "space", "<any>"]:
+        for i in range(len(w)):
+            near.add(w[:i] + w[i + 1:])
+            near.add(w[:i] + "x" + w[i + 1:])
+        near.add(w + "x")
+    ops += [["parse", ["S", x]] for x in sorted(near)]
+    yield {"ops": ops, "fam": "E7"}
+    # add() normalises its keys: a binding added under an alias is found under the canonical key and
+    # can be removed by either name
+    aliases = list(KEY_ALIASES.items())
+    for a, t in aliases + [("space", " ")]:
+        canon = kbmod._parse_key(t)
+        n = knum(canon)
+        ops = [["mk", "k", "kb"], ["addr", "k", 0, [["S", a]]], ["addr", "k", 1, [["S", t], ["S", a]]],
+               ["addr", "k", 2, [["S", a], ["S", "zz"]]], ["addr", "k", 2, []], ["bindings", "k"],
+               ["for", "k", [n]], ["for", "k", [n, n]], ["start", "k", [n]],
+               ["proc", "k"], ["feed", False, [[n, 1], "F"]], ["process"], ["feed", False, [[n, 2], [n, 3]]], ["process"],
+               ["op", ["rmk", "k", [n]]], ["bindings", "k"], ["op", ["rmk", "k", [n]]], ["bindings", "k"]]
+        yield {"ops": ops, "fam": "E7"}
+    # the numeric argument as a function of the characters typed
+    ops = []
+    for n in range(0, 4 if tier == "quick" else 5):
+        for tup in itertools.product("-05", repeat=n):
+            ops.append(["argv", "".join(tup)])
+    ops += [["argv", x] for x in ["999999", "1000000", "1000001", "-1000000", "-999", "0000012", "12345678901234567890",
+                                  "-0", "00", "x", "1x", "1-", "--", "-5-"]]
+    yield {"ops": ops, "fam": "E7"}
+    # the re-feeding handler: process_keys is still looping after n iterations, for a range of n
+    yield {"ops": [["refeed", n] for n in ([0, 1, 2, 3, 10, 100, 1000] if tier == "quick" else
+                                           list(range(0, 60)) + [100, 1000, 5000, 20000])], "fam": "E7"}
 
 
 def cases(tier, rng):
@@ -1522,6 +2054,9 @@ def cases(tier, rng):
     yield from e2_cases(tier, rng)
     yield from e1_cases(tier, rng)
     yield from e4_cases(tier, rng)
+    yield from e7_cases(tier, rng)
+    yield from e6_cases(tier, rng)
+    yield from e5_cases(tier, rng)
     n = 1500 if tier == "quick" else 12000
     for _ in range(n):
         yield dense_case(rng)
@@ -1539,7 +2074,8 @@ def sample_view(case):
 
 
 def nontrivial(case):
-    return any(o[0] in ("process", "for", "start", "bindings", "and", "or", "inv") for o in case["ops"])
+    return any(o[0] in ("process", "for", "start", "bindings", "and", "or", "inv", "parse", "argv", "addr", "refeed")
+               for o in case["ops"])
 
 
 def distribution(cases):
